@@ -66,6 +66,7 @@ def analyse(fam, n):
         vd = [D(req[0]['state'], z3.IntVal(i)) for i in range(n)]
         cd = [D(req[1]['state'], z3.IntVal(i)) for i in range(n)]
         s = z3.Solver()
+        s.set('timeout', 30000)
         s.add(*p.ctx.pc)
         # column 1 is the first draw
         s.push()
@@ -170,6 +171,14 @@ def task(a):
 
 
 def concrete_violation(fam, theta, n=5, seed=3):
+    for n_ in ((1, n, 1200) if n == 5 else (n,)):
+        bad, detail = _concrete_violation(fam, theta, n_, seed)
+        if bad:
+            return bad, f'n={n_}: {detail}'
+    return False, ''
+
+
+def _concrete_violation(fam, theta, n=5, seed=3):
     c = real_model(fam, theta)
     c.set_random_state(seed)
     try:
